@@ -58,6 +58,11 @@ var Messages = []string{
 	"select \"x\\\"y\" from t where a = 'b\\'' and c = 1",
 	"INSERT INTO t VALUES ('it''s', \"q\", 3.5, NULL) /* c */",
 	"multi\nline \"quoted\" text\twith\ttabs",
+	// sizes: documents and lines beyond the thresholds where implementations switch strategy (64, 128, 1 KiB, 4 KiB)
+	`{"age":30,"a":{"first":[1,2,3],"second":"s"},"user":{"name":"alice","roles":["admin","ops"]},"pad":"` + strings.Repeat("p", 80) + `"}`,
+	`{"age":31,"a":{"first":[4,5,6],"second":"t"},"user":{"name":"bob","roles":["dev"]},"pad":"` + strings.Repeat("q", 1100) + `"}`,
+	`[{"age":1},{"age":2},"` + strings.Repeat("r", 200) + `"]`,
+	"hello 42 " + strings.Repeat("long line ", 500),
 }
 
 // Stamps: with year and zone, zone-less (default zone applies), year-less redis layout (clock applies).
@@ -119,6 +124,10 @@ func SetTheme(r *simrt.RNG) {
 	Theme = fmt.Sprintf("pt%d", r.Intn(1000000))
 	collide = r.Intn(3) == 0
 	brokenHeavy = r.Intn(4) == 0
+	themeZone = ""
+	if r.Intn(5) == 0 {
+		themeZone = moreZones[r.Intn(len(moreZones))]
+	}
 	// two featured recipes: in half of the plans every script draws mostly from them, so that
 	// several scripts / tasks of one plan exercise the same builtin code with different arguments
 	featured = [2]int{r.Intn(len(recipes)), r.Intn(len(recipes))}
@@ -148,6 +157,17 @@ var (
 
 // collide makes the colliding-pattern recipe much more likely in this plan.
 var collide bool
+
+// themeZone: a zone name several scripts of the plan use (drawn from a list long enough that a worker
+// process meets most names for the first time inside some plan)
+var themeZone string
+
+var moreZones = []string{"Pacific/Chatham", "Asia/Kathmandu", "Asia/Kolkata", "Asia/Tehran", "Asia/Yangon", "Australia/Adelaide", "Australia/Darwin", "America/Caracas",
+	"America/Sao_Paulo", "America/Argentina/Buenos_Aires", "America/Mexico_City", "America/Chicago", "America/New_York", "America/Denver", "America/Anchorage", "Pacific/Honolulu",
+	"Pacific/Auckland", "Pacific/Fiji", "Pacific/Tongatapu", "Asia/Dubai", "Asia/Karachi", "Asia/Dhaka", "Asia/Bangkok", "Asia/Singapore", "Asia/Seoul", "Asia/Vladivostok",
+	"Europe/London", "Europe/Lisbon", "Europe/Paris", "Europe/Moscow", "Europe/Istanbul", "Europe/Kyiv", "Africa/Lagos", "Africa/Johannesburg", "Africa/Nairobi", "Africa/Casablanca",
+	"Atlantic/Azores", "Atlantic/Reykjavik", "Indian/Maldives", "Indian/Mauritius", "Antarctica/Troll", "America/Halifax", "America/Bogota", "America/Lima", "America/Santiago",
+	"Asia/Jerusalem", "Asia/Riyadh", "Asia/Tashkent", "Asia/Novosibirsk", "Asia/Hong_Kong", "Asia/Manila", "Australia/Perth", "Australia/Brisbane", "Pacific/Guam", "Pacific/Marquesas"}
 
 // brokenHeavy: many members of this plan's script sets fail to load (syntax, check pass, stray jumps)
 var brokenHeavy bool
@@ -216,12 +236,15 @@ if false {
 		tz := []string{"", `, "Asia/Shanghai"`, `, "+8"`, `, "America/St_Johns"`, `, "-3:30"`, `, "Nowhere/Land"`,
 			`, "Europe/Berlin"`, `, "+1"`, `, "-11"`, `, "+5:45"`, `, "Asia/Tokyo"`, `, "+12:45"`, `, "America/Phoenix"`, `, "-7"`, `, "CST"`, `, "UTC"`,
 			`, "Africa/Cairo"`, `, "Australia/Eucla"`, `, "+14"`, `, "Pacific/Apia"`}[r.Intn(20)]
+		// near-miss spellings of a name (other letter case, stray blank): whether they are accepted is the
+		// implementation's business, but it must be the same answer whatever ran before
+		tz = NearMiss(r, tz)
 		return fmt.Sprintf("default_time(ts%s)\nadd_key(after%d, 1)\n", tz, id)
 	},
 	// datetime formatting (local zone)
 	func(r *simrt.RNG, id int) string {
 		f := []string{"RFC3339", "ANSIC", "Kitchen", "nope"}[r.Intn(4)]
-		return fmt.Sprintf("datetime(ms, \"ms\", %q)\n", f)
+		return fmt.Sprintf("datetime(ms, \"ms\", %s)\n", NearMiss(r, fmt.Sprintf("%q", f)))
 	},
 	// counted loop writing the point
 	func(r *simrt.RNG, id int) string {
@@ -250,6 +273,10 @@ if false {
 	},
 	// json
 	func(r *simrt.RNG, id int) string {
+		if r.Intn(2) == 0 {
+			// the decoded document is the script's own: edited in place, decoded again, compared
+			return fmt.Sprintf("j = load_json(_)\nif j != nil {\n  j[\"age\"] = j[\"age\"] + %d\n  j[\"a\"][\"first\"][0] = \"edited%d\"\n  add_key(age%d, j[\"age\"])\n  j2 = load_json(_)\n  add_key(age_again%d, j2[\"age\"])\n  add_key(first%d, j2[\"a\"][\"first\"][0])\n}\n", 1+r.Intn(5), id, id, id, id)
+		}
 		return fmt.Sprintf("j = load_json(_)\nif j != nil {\n  add_key(age%d, j[\"age\"])\n  add_key(cnt%d, len(j))\n}\n", id, id)
 	},
 	// xml
@@ -322,6 +349,29 @@ if false {
 	},
 }
 
+// NearMiss returns, one time in five, a near-miss spelling of the name inside a quoted argument text:
+// lower case, upper case, or a trailing blank. (Names resolved through caches, tables or the file
+// system are where an earlier successful lookup can change the answer for a later near miss.)
+func NearMiss(r *simrt.RNG, quoted string) string {
+	if r.Intn(5) != 0 || !strings.Contains(quoted, "\"") {
+		return quoted
+	}
+	a, b := strings.Index(quoted, "\""), strings.LastIndex(quoted, "\"")
+	if b <= a+1 {
+		return quoted
+	}
+	name := quoted[a+1 : b]
+	switch r.Intn(3) {
+	case 0:
+		name = strings.ToLower(name)
+	case 1:
+		name = strings.ToUpper(name)
+	default:
+		name += " "
+	}
+	return quoted[:a+1] + name + quoted[b:]
+}
+
 // GenScript returns a valid v1 script made of 1-3 recipes.
 func GenScript(r *simrt.RNG, id int) string {
 	if r.Intn(6) == 0 {
@@ -329,6 +379,19 @@ func GenScript(r *simrt.RNG, id int) string {
 	}
 	n := 1 + r.Intn(3)
 	var b strings.Builder
+	if themeZone != "" && r.Intn(4) != 0 {
+		// the plan's own zone, named by several of its scripts - in its canonical spelling or a near miss
+		z := themeZone
+		switch r.Intn(20) {
+		case 0, 1, 2, 3, 4:
+			z = strings.ToLower(z)
+		case 5, 6, 7:
+			z = strings.ToUpper(z)
+		case 8, 9:
+			z += " "
+		}
+		fmt.Fprintf(&b, "default_time(ts, %q)\nadd_key(zoned%d, 1)\n", z, id)
+	}
 	for i := 0; i < n; i++ {
 		k := r.Intn(len(recipes))
 		if featuredOn && r.Intn(2) == 0 {
